@@ -122,6 +122,7 @@ class BaseTemplate:
     filename: StrPath = '<string>'
 
     _cooked = False
+    _macro_names: tuple[str, ...] = ()
 
     loader: ModuleLoader | MemoryLoader
     if DEBUG_MODE or CACHE_DIRECTORY:
@@ -225,6 +226,11 @@ class BaseTemplate:
 
         for name, function in functions.items():
             setattr(self, "_" + name, function)
+
+        # The macros in the order of their definition (the order of the
+        # instance dictionary is that of the first version cooked)
+        self._macro_names = tuple(
+            name[7:] for name in functions if name.startswith('render_'))
 
         _verif_point("cook.published", template=self)
         self._cooked = True
